@@ -110,6 +110,24 @@ fn dispatch(prop: &str, ctx: &mut Ctx) {
                 println!("{i} curated dialect {:?} before {:?} after {:?}", harper_core::FstDictionary::curated().get_word_metadata(&wc).map(|m| m.dialect), before, after);
             }
         }
+        "dbg-ignore" => {
+            use harper_core::linting::Linter;
+            let dict = harper_core::FstDictionary::curated();
+            let a = ctx.opts.get("text").cloned().unwrap().replace("\\n", "\n");
+            let b = ctx.opts.get("edited").cloned().unwrap().replace("\\n", "\n");
+            let mut lg = harper_core::linting::LintGroup::new_curated(dict.clone(), harper_core::Dialect::American);
+            let da = harper_core::Document::new(&a, &harper_core::parsers::PlainEnglish, &dict);
+            let db = harper_core::Document::new(&b, &harper_core::parsers::PlainEnglish, &dict);
+            let la = lg.lint(&da);
+            let lb = lg.lint(&db);
+            let mut ign = harper_core::IgnoredLints::new();
+            for l in &la {
+                ign.ignore_lint(l, &da);
+            }
+            for l in &lb {
+                println!("{} ignored={} ctx={:?}", lintmon::lint_key(l), ign.is_ignored(l, &db), db.fat_tokens_intersecting(harper_core::Span { start: l.span.start.saturating_sub(2), end: l.span.start + 4 }).iter().map(|t| (t.content.iter().collect::<String>(), tokmon::kind_name(&t.kind))).collect::<Vec<_>>());
+            }
+        }
         "show-md" => {
             let text = ctx.opts.get("text").cloned().unwrap_or_default().replace("\\n", "\n");
             let p = pulldown_cmark::Parser::new_ext(&text, pulldown_cmark::Options::all().difference(pulldown_cmark::Options::ENABLE_SMART_PUNCTUATION));
